@@ -21,5 +21,5 @@ PROP = {'counts': {'quick': 4, 'thorough': 60},
                  'depend on timing; the first response of a fresh stream reaches the waiting receiver'],
  'partial': '"bounded time" is rounds in the model (C14_converges_partial: 2*(N+1-expected)+3 good ticks plus '
             'the number of lost/sidelined deliveries) and a wall-clock bound in the run; the full statement '
-            'C14_converges_statement is refuted by three classes of histories (rotation, last write equal '
-            'to the session start, transaction cut by the 100-entry response limit)'}
+            'C14_converges_statement is refuted by two classes of histories (rotation, last write equal '
+            'to the session start; a third one, the transaction cut by the 100-entry response limit, was repaired by f62340e and is kept as a regression case)'}
